@@ -419,7 +419,40 @@ def r10_5(chk):
     chk.floor("R10.5", 4, "Span, LostSpan, Columns, Table on the pinned tree")
 
 
+def r10_6(chk):
+    chk.rule("R10.6", "state that records an object's history is part of its serialised form: for each class of the curated history-state table (SeqsData.reversed_seqs, IndelMap.termini_unknown) to_rich_dict writes that constructor parameter -- as a literal key, or through an open copy of the captured constructor arguments (_serialisable / **) -- otherwise the object reloads with the default and displays other characters")
+    from . import c03
+
+    for rel, cname, param, why in c03.HISTORY_STATE:
+        m = chk.repo.module(rel)
+        ci = m.cls(cname)
+        r = ci.resolve("to_rich_dict")
+        if r is None or not isinstance(r[1], ast.FunctionDef):
+            raise AnalysisError(f"{rel}::{cname}.to_rich_dict not found")
+        fn = r[1]
+        keys = set()
+        open_copy = False
+        for x in ast.walk(fn):
+            if isinstance(x, ast.Dict):
+                for kx in x.keys:
+                    if kx is None:
+                        open_copy = True
+                    elif isinstance(kx, ast.Constant) and isinstance(kx.value, str):
+                        keys.add(kx.value)
+            if isinstance(x, ast.Subscript) and isinstance(x.ctx, ast.Store) and isinstance(x.slice, ast.Constant) and isinstance(x.slice.value, str):
+                keys.add(x.slice.value)
+            if isinstance(x, ast.Attribute) and x.attr == "_serialisable":
+                open_copy = True
+            if isinstance(x, ast.Call) and call_name(x) in ("dict",) and any(kw.arg is None for kw in x.keywords):
+                open_copy = True
+            if isinstance(x, ast.keyword) and x.arg == param:
+                keys.add(param)
+        chk.decide(param in keys or open_copy, "R10.6", key(m, f"{cname}.to_rich_dict", f"writes {param}"), m.loc(fn), f"`{param}` written ({'open copy of the constructor arguments' if open_copy and param not in keys else 'literal key'})", f"to_rich_dict writes {sorted(keys)} but not `{param}` ({why}): after a JSON round trip the object falls back to the default and shows different characters ('??ACG-TA??' comes back as '--ACG-TA--')")
+    chk.floor("R10.6", 2, "two history-state classes")
+
+
 def run(chk):
+    r10_6(chk)
     r10_1(chk)
     r10_2(chk)
     r10_3(chk)
